@@ -89,6 +89,12 @@ type Action struct {
 	// NumTxt: the text of the unparsable numeric field (Sq / Integ = "nonnum"); "" = letters.  With Integ = "nonnum" it replaces
 	// the value of the message's own numeric field (HeartBtInt of a Logon, BeginSeqNo of a ResendRequest) where there is one
 	NumTxt string `json:"numTxt"`
+	// Extra: a message that means the same written differently: 1 = a field the library does not know (9999) at the end of the
+	// body, 2 = the same inside the header, 3 = TargetCompID before SenderCompID, 4 = SendingTime before MsgSeqNum
+	Extra int `json:"extra"`
+	// Omit: a Logon that lacks EncryptMethod ("enc"), HeartBtInt ("hb") or both ("both"); for the specification the same as an
+	// empty method / an interval of 0
+	Omit string `json:"omit"`
 }
 
 func (a *Action) norm() {
@@ -136,9 +142,19 @@ func Inbound(a *Action, peerID, ourID string, ts string) []byte {
 		if ownField {
 			hb = a.NumTxt
 		}
-		body = []Field{F("98", a.Enc), F("108", hb), F("553", "user"), F("554", pw)}
+		body = []Field{}
+		if a.Omit != "enc" && a.Omit != "both" {
+			body = append(body, F("98", a.Enc))
+		}
+		if a.Omit != "hb" && a.Omit != "both" {
+			body = append(body, F("108", hb))
+		}
+		body = append(body, F("553", "user"), F("554", pw))
 	case "logout":
 		ty = "5"
+		if len(a.ID) > 0 { // Text
+			body = []Field{{"58", idBytes(a.ID)}}
+		}
 	case "hbt":
 		ty = "0"
 	case "testreq":
@@ -154,6 +170,13 @@ func Inbound(a *Action, peerID, ourID string, ts string) []byte {
 	case "app":
 		ty = "D"
 		body = []Field{F("11", "ord1"), F("55", "BTC/USD")}
+		// look-alikes: free text (58) with the given bytes, and a field whose tag number is a.B with the value "4" / a.E
+		if len(a.ID) > 0 {
+			body = append(body, Field{"58", idBytes(a.ID)})
+		}
+		if a.B > 0 {
+			body = append(body, F(strconv.Itoa(a.B), strconv.Itoa(a.E)))
+		}
 	case "unknown":
 		ty = "ZZ"
 		body = []Field{F("58", "hello")}
@@ -161,13 +184,27 @@ func Inbound(a *Action, peerID, ourID string, ts string) []byte {
 		panic("not an inbound action: " + a.A)
 	}
 	fields := []Field{F("35", ty), F("49", peerID), F("56", ourID)}
+	if a.Extra == 3 {
+		fields = []Field{F("35", ty), F("56", ourID), F("49", peerID)}
+	}
+	if a.Extra == 4 {
+		fields = append(fields, F("52", ts))
+	}
 	switch a.Sq {
 	case "ok":
 		fields = append(fields, F("34", strconv.Itoa(a.Seq)))
 	case "nonnum":
 		fields = append(fields, F("34", bad("abc")))
 	}
-	fields = append(fields, F("52", ts))
+	if a.Extra == 2 {
+		fields = append(fields, F("9999", "x"))
+	}
+	if a.Extra != 4 {
+		fields = append(fields, F("52", ts))
+	}
+	if a.Extra == 1 {
+		body = append(body, F("9999", "unknown field"))
+	}
 	if a.Integ == "nonnum" && !ownField {
 		fields = append(fields, F("369", bad("x1"))) // LastMsgSeqNumProcessed is an int field of the header
 	}
